@@ -45,6 +45,14 @@ CHECKS.update({
          "trivial theorem + differential aliasing check (partial)", "7 C10"),
 })
 
+REN = "Modelled, not verified: xml-builder, the format strings, itertools sorting and the derived label order (re-specified in Lean; real texts parsed back and compared structurally). "
+CHECKS.update({
+ "C18": ("proof", "Props.C18 on the export document of the model (toXml/toDot = printer of exportDoc by definition): nodes_are_present_vertices, ascending, node_content (one entry per stored edge with label and target, data iff the vertex has data), same_content_same_text (via merge-sort of a permutation of distinct labels under the derived label order, proved strict total). Tie: the real to_xml()/to_dot() texts are parsed back into records and compared with the model's document; monC18 judges the parsed records against the reference state (present-only, edges, data, ascending) and compares the texts of graphs with equal content built differently.",
+         "document-structure theorems in Lean 4; structural correspondence of the real texts", "7 C18"),
+ "C20": ("proof", "Props.C20: inspect_terminates for every reachable graph (EdgesBelow invariant + fuel bound), inspect_expands_reachable_once (expanded vertices are duplicate-free and exactly the reachable set), inspect_lists_every_edge_once (the edge entries are, as a multiset, the edges of the reachable vertices), debug_exact, vprint_exact. The line-producing recursion is proved to project onto the abstract seen-set recursion. Tie: inspect/Debug/Display/v_print texts parsed back and compared structurally; monC20 recounts the listed edges per reachable vertex against the reference; a call that gives no text (abort/time-out) is a violation attributed to that call.",
+         "DFS exactness and termination proofs in Lean 4; structural correspondence of the real texts", "7 C20"),
+})
+
 NOT_YET = {}
 
 def main():
@@ -58,7 +66,7 @@ def main():
             "replay_cmd_template": "./check replay {path}",
             "engine": "lean4+correspondence",
             "level_claimed": {"category": level, "text": text, "design_ref": "DESIGN.md section " + ref},
-            "level_note": BASE + (PURE if pid in ("C15", "C16", "C17") else CONT + (SER if pid in ("C08", "C09") else "")),
+            "level_note": BASE + (PURE if pid in ("C15", "C16", "C17") else CONT + (SER if pid in ("C08", "C09") else "") + (REN if pid in ("C18", "C20") else "")),
             "technique": tech,
         })
     props = [json.loads(l)["id"] for l in open(os.path.join(ROOT, "properties.jsonl"))]
